@@ -181,6 +181,46 @@ theorem isNext_cronEvery (K start t : Int) (hK : 0 < K) (ht : start ≤ t) :
   simp only [Int.add_zero] at h ⊢
   exact ⟨h.1, ⟨by omega, h.2.1⟩, fun u hu hl => h.2.2.2 u hu hl.2⟩
 
+theorem isNext_congr {live live' : Int → Bool} {next : Int → Option Int} {t : Int}
+    (h : ∀ u, t < u → live u = live' u) (hn : IsNext live next t) : IsNext live' next t := by
+  cases hnt : next t with
+  | some c =>
+    simp only [IsNext, hnt] at hn ⊢
+    obtain ⟨h1, h2, h3⟩ := hn
+    exact ⟨h1, by rw [← h c h1]; exact h2, fun u hu hl => h3 u hu (by rw [h u hu]; exact hl)⟩
+  | none =>
+    simp only [IsNext, hnt] at hn ⊢
+    intro u hu
+    rw [← h u hu]; exact hn u hu
+
+/-- An ending cron schedule given by its ascending firing times: `find?` is the first firing after `t`. -/
+theorem isNext_cronList (fires : List Int) (hs : fires.Pairwise (· < ·)) (s0 t : Int) (ht : s0 ≤ t) :
+    IsNext (LiveTick (.cronList fires) s0) (cronListNext fires) t := by
+  induction fires with
+  | nil =>
+    simp [IsNext, cronListNext, LiveTick]
+  | cons f rest ih =>
+    have hs' := List.pairwise_cons.mp hs
+    by_cases hf : t < f
+    · have hn : cronListNext (f :: rest) t = some f := by simp [cronListNext, hf]
+      simp only [IsNext, hn, LiveTick, Bool.and_eq_true, decide_eq_true_eq]
+      refine ⟨hf, ⟨by omega, by simp⟩, ?_⟩
+      intro u hu ⟨_, hm⟩
+      simp only [List.contains_cons, Bool.or_eq_true, beq_iff_eq] at hm
+      rcases hm with rfl | hm
+      · exact Int.le_refl _
+      · have := hs'.1 u (by simpa using hm); omega
+    · have hrec := ih hs'.2
+      have hn : cronListNext (f :: rest) t = cronListNext rest t := by
+        simp [cronListNext, hf]
+      have hlive : ∀ u, t < u → LiveTick (.cronList rest) s0 u = LiveTick (.cronList (f :: rest)) s0 u := by
+        intro u hu
+        have hne : u ≠ f := by omega
+        simp [LiveTick, hne]
+      have h2 := isNext_congr hlive hrec
+      unfold IsNext at h2 ⊢
+      rw [hn]; exact h2
+
 /-! ### literal bookkeeping -/
 
 theorem wrapUser_natoms (c : Cond) : (wrapUser c).natoms = c.natoms := by
@@ -370,9 +410,9 @@ theorem eqn_realise_1 : histFuel 0 0 = 1 := by simp [histFuel]
 theorem eqn_realise_2 : checkDBRPs [] [] = true := by simp [checkDBRPs]
 theorem eqn_realise_3 : startBatching [] [] = some [] := by simp [startBatching, checkDBRPs]
 theorem eqn_realise_4 : onlyDeclared [] [] = true := by simp [onlyDeclared]
-theorem eqn_realise_5 : firstLiveAfter (.cronEvery 1) 0 0 = 1 := by simp [firstLiveAfter]
-theorem eqn_realise_6 : firstLiveAfter (.every 1 true) 0 0 = ((0 + zeroOff) / 1 + 1) * 1 - zeroOff := by simp only [firstLiveAfter]
-theorem eqn_realise_7 : firstLiveAfter (.every 1 false) 0 0 = 1 := by simp [firstLiveAfter]
+theorem eqn_realise_5 : firstLiveAfter (.cronEvery 1) 0 0 = some 1 := by simp [firstLiveAfter]
+theorem eqn_realise_6 : firstLiveAfter (.every 1 true) 0 0 = some (((0 + zeroOff) / 1 + 1) * 1 - zeroOff) := by simp only [firstLiveAfter]
+theorem eqn_realise_7 : firstLiveAfter (.every 1 false) 0 0 = some 1 := by simp [firstLiveAfter]
 theorem eqn_realise_8 : TOp.eval .ge 0 0 = true := by simp [TOp.eval]
 theorem eqn_realise_9 : rangeOfTick 0 0 0 = (0, 0) := by simp [rangeOfTick]
 theorem eqn_realise_10 : tickRange 0 0 0 = (0, 0) := by simp [tickRange]
